@@ -46,7 +46,8 @@ class C04(Prop):
 
         # dense maps on many qubits (long walks): the GF(2) elimination of inverse() sees 18..32 columns
         self.huge = []
-        for n, depth, num in ((9, 60, 4), (12, 90, 3), (16, 120, 4 if self.tier != "thorough" else 12)):
+        # ... and one register across the 64-bit word boundary (66 qubits, 132 columns)
+        for n, depth, num in ((9, 60, 4), (12, 90, 3), (16, 120, 4 if self.tier != "thorough" else 12), (66, 10, 1 if self.tier != "thorough" else 3)):
             r = self.model("MC_RotSim", "MC_RotSim_n%d.cfg" % n, name="rotsim_n%d" % n, workers=1, simulate="num=%d" % num,
                            depth=depth, seed=self.seed + 200 + n, collect=True, timeout=1500)
             last = None
